@@ -109,6 +109,12 @@ func (s *sortedSet[ElementType, WeightType]) addSorted(element ElementType) {
 			if listElement.unsubscribeFromWeightUpdates != nil {
 				s.mutex.Lock()
 				defer s.mutex.Unlock()
+
+				// ignore updates for elements that were removed in the meantime (deleteSorted unsubscribes after it
+				// has released the mutex)
+				if currentElement, exists := s.elements.Get(element); !exists || currentElement != listElement {
+					return
+				}
 			}
 
 			listElement.weight = newWeight
@@ -120,12 +126,20 @@ func (s *sortedSet[ElementType, WeightType]) addSorted(element ElementType) {
 
 // deleteSorted deletes the given element from the sortedElements slice.
 func (s *sortedSet[ElementType, WeightType]) deleteSorted(element ElementType) {
+	// unsubscribe from weight updates after the mutex has been released: unsubscribing waits for a running weight
+	// callback, which in turn waits for the mutex (unsubscribing while holding the mutex can deadlock)
+	var unsubscribeFromWeightUpdates func()
+	defer func() {
+		if unsubscribeFromWeightUpdates != nil {
+			unsubscribeFromWeightUpdates()
+		}
+	}()
+
 	s.mutex.Lock()
 	defer s.mutex.Unlock()
 
 	if deletedElement, deleted := s.elements.DeleteAndReturn(element); deleted {
-		// unsubscribe from weight updates
-		deletedElement.unsubscribeFromWeightUpdates()
+		unsubscribeFromWeightUpdates = deletedElement.unsubscribeFromWeightUpdates
 
 		// shift all elements to the right of the deleted element one position to the left
 		for i := deletedElement.index; i < len(s.sortedElements)-1; i++ {
